@@ -3,7 +3,7 @@
     from a fresh spawn by isalive / wait / kill / terminate / close and by the child dying on its own. *)
 From Coq Require Import ZArith List Bool.
 Import ListNotations.
-From PV Require Import Life.Model Life.Proofs.
+From PV Require Import Life.Model Life.Proofs Life.Foreign.
 Local Open Scope Z_scope.
 
 (** the W* macros decode what an exit code / a terminating signal encodes *)
@@ -47,6 +47,17 @@ Theorem C09_close_observes : forall w, Inv w ->
   end.
 Proof. intros w HI. pose proof (close_force w HI) as C. destruct (close w true) as [[| | | |] w']; try contradiction. split; apply C. Qed.
 Print Assumptions C09_close_observes.
+
+(** Even in a world where SOMEBODY ELSE may reap the child (the kernel when the application ignores SIGCHLD, another waitpid):
+    pexpect may then be unable to learn the fate - its checks raise -, but a status it reports is never invented: after any
+    sequence of operations and events, terminated implies that the fields are the child's real fate, exactly one of them set. *)
+Theorem C09_no_invented_status : forall ops ih ii st, Forall wf_op' ops ->
+  let w := fold_left (fun w o => snd (lstep w o)) ops (world0 ih ii st) in
+  s_terminated (sp w) = true ->
+  alive (ch w) = false /\ s_status (sp w) = Some (fate (ch w)) /\ (s_exit (sp w), s_sig (sp w)) = fields_of (fate (ch w)) /\
+  ((exists c, s_exit (sp w) = Some c /\ s_sig (sp w) = None) \/ (exists g, s_exit (sp w) = None /\ s_sig (sp w) = Some g)).
+Proof. exact no_invented_status. Qed.
+Print Assumptions C09_no_invented_status.
 
 Example C09_example : let w := fold_left (fun w o => snd (lstep w o)) [OEnv (EExit 7); OIsalive] (world0 false false false) in
   (s_terminated (sp w), s_exit (sp w), s_sig (sp w), s_status (sp w)) = (true, Some 7, None, Some 1792).
